@@ -6,7 +6,7 @@ from vt.core import R, mat, meta_problem
 ID = 'C12'
 LEVEL = 'exploration'
 RULE = ('SLIM: complete enumeration of state-space vector x per-bond two-cell reaction set (empty, every single reaction of a '
-        '6-reaction alphabet per bond type [every unordered pair too in thorough], so neighbouring bonds get different '
+        '6-reaction alphabet per bond type, the two pairs of reactions sharing a reactant pair [every unordered pair in thorough], so neighbouring bonds get different '
         'interaction ranks) x single-cell pattern x open/cyclic x threshold {0,1e-12}; a second sub-lattice enumerates EVERY '
         'single-cell reaction (all reactant != product pairs) per cell; the homogeneous wrapper with cyclic in {True,False}. '
         'Ulam: every ordered transition table with <= 3 (2 for the larger grids) transitions over all box pairs of the grids '
@@ -41,8 +41,10 @@ def cases(tier):
                     n1, n2 = ss[b], ss[(b + 1) % d]
                     al = two_alpha(n1, n2)
                     opts = [[]] + [[x] for x in al]
+                    # two reactions with the SAME reactant pair and different products (their loss terms accumulate)
+                    opts += [[al[1], al[3]], [al[2], al[5]]]
                     if not q and d < 4:
-                        opts += [[x, y] for x, y in itertools.combinations(al, 2)]
+                        opts += [[x, y] for x, y in itertools.combinations(al, 2) if [x, y] not in opts]
                     per_bond.append(opts)
                 for tc in itertools.product(*per_bond):
                     for sp in ('none', 'each', 'first-last'):
